@@ -649,6 +649,115 @@ def hoist_loop_temporaries(ft, ads):
         ads.append({"rule": "D17", "what": f"{n} loop(s) over `call(..).iter()`: the temporary is bound by an explicit let around the loop"})
 
 
+def _expr_start(sig, k):
+    """index of the first token of the postfix expression that ends at token k (idents, `.`, `::`, calls, indexing, `?`)"""
+    j = k
+    while j >= 0:
+        t = sig[j]
+        if t.text in (")", "]"):
+            # find the matching opener
+            depth = 0
+            m = j
+            while m >= 0:
+                if sig[m].text in CLOSE:
+                    depth += 1
+                elif sig[m].text in OPEN:
+                    depth -= 1
+                    if depth == 0:
+                        break
+                m -= 1
+            j = m - 1
+            continue
+        if t.kind == "ident" and t.text not in ("let", "return", "in", "if", "else", "match", "mut", "ref", "move"):
+            j -= 1
+            continue
+        if t.text in (".", "?"):
+            j -= 1
+            continue
+        if t.text == ":" and j > 0 and sig[j - 1].text == ":":
+            j -= 2
+            continue
+        break
+    return j + 1
+
+
+def _has_control_flow(toks):
+    return any(t.kind == "ident" and t.text in ("return", "break", "continue") for t in toks) or any(t.text == "?" for t in toks)
+
+
+def desugar_iterator_chains(ft, ads):
+    """D21: `E.into_iter().enumerate().map(|(I, X)| BODY).collect_vec()`  (itertools' collect_vec = collect::<Vec<_>>) becomes
+        { let mut d21_out = Vec::new(); let mut d21_k: usize = 0; for X in E { let I = d21_k; d21_k = d21_k + 1; d21_out.push(BODY); } d21_out }
+    D22: `E.iter().filter(|F| COND).cloned().collect_vec()` becomes
+        { let mut d22_out = Vec::new(); for F in E.iter() { if COND { d22_out.push(F.clone()); } } d22_out }
+    — the sequential, in-order, one-element-at-a-time evaluation that Iterator::map/filter/collect are documented to perform; applied only
+    when the closure body contains no return/break/continue/`?` (whose meaning would differ inside a loop).  The closure may mutate
+    captured variables (FnMut): the loop body performs the same mutations in the same order."""
+    n21 = n22 = 0
+    while True:
+        sig = ft.sig
+        hit = None
+        for k in range(len(sig) - 8):
+            tx = [u.text for u in sig[k:k + 12]]
+            # D21
+            if tx[:9] == [".", "into_iter", "(", ")", ".", "enumerate", "(", ")", "."] and tx[9] == "map" and tx[10] == "(" and tx[11] == "|":
+                mo = k + 10
+                mc = match_close(sig, mo)
+                if [u.text for u in sig[mc + 1:mc + 5]] != [".", "collect_vec", "(", ")"]:
+                    continue
+                # closure params: | ( I , X ) |
+                if not (sig[mo + 2].text == "(" and sig[mo + 4].text == "," and sig[mo + 6].text == ")" and sig[mo + 7].text == "|"):
+                    continue
+                i_name, x_name = sig[mo + 3].text, sig[mo + 5].text
+                body = sig[mo + 8:mc]
+                if not body or _has_control_flow(body):
+                    continue
+                es = _expr_start(sig, k - 1)
+                hit = ("D21", es, k, mo, mc, i_name, x_name, body)
+                break
+            # D22
+            if tx[:6] == [".", "iter", "(", ")", ".", "filter"] and tx[6] == "(" and tx[7] == "|":
+                fo = k + 6
+                fc = match_close(sig, fo)
+                if [u.text for u in sig[fc + 1:fc + 9]] != [".", "cloned", "(", ")", ".", "collect_vec", "(", ")"]:
+                    continue
+                if not (sig[fo + 2].kind == "ident" and sig[fo + 3].text == "|"):
+                    continue
+                f_name = sig[fo + 2].text
+                cond = sig[fo + 4:fc]
+                if not cond or _has_control_flow(cond):
+                    continue
+                es = _expr_start(sig, k - 1)
+                hit = ("D22", es, k, fo, fc, f_name, cond)
+                break
+        if hit is None:
+            break
+        if hit[0] == "D21":
+            _, es, k, mo, mc, i_name, x_name, body = hit
+            recv = ft.text[sig[es].s:sig[k - 1].e]
+            btxt = ft.text[body[0].s:body[-1].e]
+            tag = f"d21_{n21}"
+            rep = (f"{{ let mut {tag}_out = Vec::new(); let mut {tag}_k: usize = 0; for {x_name} in {recv} "
+                   f"{{ let {i_name} = {tag}_k; {tag}_k = {tag}_k + 1; {tag}_out.push({btxt}); }} {tag}_out }}")
+            ft.edits.append((sig[es].s, sig[mc + 4].e - sig[es].s, rep))
+            n21 += 1
+        else:
+            _, es, k, fo, fc, f_name, cond = hit
+            recv = ft.text[sig[es].s:sig[k - 1].e]
+            ctxt = ft.text[cond[0].s:cond[-1].e]
+            tag = f"d22_{n22}"
+            rep = (f"{{ let mut {tag}_out = Vec::new(); for {f_name} in {recv}.iter() "
+                   f"{{ if {ctxt} {{ {tag}_out.push({f_name}.clone()); }} }} {tag}_out }}")
+            ft.edits.append((sig[es].s, sig[fc + 8].e - sig[es].s, rep))
+            n22 += 1
+        ft.apply_edits()
+        ft.relex()
+    if n21:
+        ads.append({"rule": "D21", "what": f"{n21} `.into_iter().enumerate().map(|(i, x)| ..).collect_vec()` chain(s) desugared to an explicit loop pushing onto a Vec"})
+    if n22:
+        ads.append({"rule": "D22", "what": f"{n22} `.iter().filter(|x| ..).cloned().collect_vec()` chain(s) desugared to an explicit loop pushing the clones of the elements that satisfy the condition"})
+
+
 def eta_expand_constructors(ft, ads):
     """D20: a datatype constructor used as a function value — `.map(Path::Variant)` — is unsupported by Verus; it is
     eta-expanded to `.map(|d20_x| Path::Variant(d20_x))` (same function)."""
@@ -689,6 +798,7 @@ def adapt_function(text, where, subs, report):
     ads = report["adaptations"]
     normalise_bool_assign(ft, ads)
     split_or_guard_arms(ft, ads)
+    desugar_iterator_chains(ft, ads)
     desugar_enumerate_loops(ft, ads)
     hoist_loop_temporaries(ft, ads)
     eta_expand_constructors(ft, ads)
